@@ -1143,6 +1143,8 @@ def compare_checkpoints(w, tw, prop, oracle, grads="reach", skip_handles=(), wha
                 continue
             if h in skip_grad_handles:
                 continue
+            if (len(sa) > 5 and sa[5]) or (len(sb) > 5 and sb[5]):
+                continue  # a left-over view's gradient depends on whether .grad was read before (cache): not judged
             if sa[3] != sb[3]:
                 ga = None if sa[3] is None else np.frombuffer(sa[3][0], dtype=sa[3][1]).tolist()
                 gb = None if sb[3] is None else np.frombuffer(sb[3][0], dtype=sb[3][1]).tolist()
